@@ -340,6 +340,7 @@ class Program:
                             mod.assigns[t.id] = st.value
                 elif isinstance(st, ast.AnnAssign) and isinstance(st.target, ast.Name) and st.value is not None:
                     mod.assigns[st.target.id] = st.value
+        self._desugar_property_factories()
         # resolve bases
         for ci in self.classes.values():
             for be in ci.base_exprs:
@@ -348,6 +349,74 @@ class Program:
                 if d is None:
                     continue
                 ci.bases.append(self.resolve_dotted(ci.module, d))
+
+    def _desugar_property_factories(self) -> None:
+        """`attr = make_property("slot", …)` in a class body, where make_property is a module-level function of the
+        package that returns `property(getter, setter, …)` with `getter(self)` = `getattr(<self-expr>, name)` and
+        `setter(self, value)` = `setattr(<self-expr>, name, value)`, is the hand-written pair
+        `@property def attr(self): return <self-expr>.slot` / `@attr.setter def attr(self, value): <self-expr>.slot = value`.
+        The pair is synthesised so that every rule that reads properties sees it."""
+        factories: dict[str, tuple[str, ast.expr, bool]] = {}
+        for mod in self.modules.values():
+            for fn in mod.functions.values():
+                params = [a.arg for a in fn.node.args.args]
+                if not params:
+                    continue
+                inner = {d.name: d for d in fn.node.body if isinstance(d, ast.FunctionDef)}
+                rets = [x for x in fn.node.body if isinstance(x, ast.Return)]
+                if len(rets) != 1 or not (isinstance(rets[0].value, ast.Call) and norm(rets[0].value.func) == "property" and rets[0].value.args):
+                    continue
+                pa = rets[0].value.args
+                g = inner.get(pa[0].id) if isinstance(pa[0], ast.Name) else None
+                st = inner.get(pa[1].id) if len(pa) > 1 and isinstance(pa[1], ast.Name) else None
+                if g is None:
+                    continue
+                gb = [x for x in g.body if not (isinstance(x, ast.Expr) and isinstance(x.value, ast.Constant))]
+                if not (len(gb) == 1 and isinstance(gb[0], ast.Return) and isinstance(gb[0].value, ast.Call) and norm(gb[0].value.func) == "getattr"
+                        and len(gb[0].value.args) == 2 and isinstance(gb[0].value.args[1], ast.Name) and gb[0].value.args[1].id in params):
+                    continue
+                base = gb[0].value.args[0]
+                pname = gb[0].value.args[1].id
+                has_setter = False
+                if st is not None:
+                    sb = [x for x in st.body if not (isinstance(x, ast.Expr) and isinstance(x.value, ast.Constant))]
+                    has_setter = (len(sb) == 1 and isinstance(sb[0], ast.Expr) and isinstance(sb[0].value, ast.Call) and norm(sb[0].value.func) == "setattr"
+                                  and len(sb[0].value.args) == 3 and norm(sb[0].value.args[0]) == norm(base) and norm(sb[0].value.args[1]) == pname)
+                    if not has_setter:
+                        continue
+                factories[f"{mod.name}.{fn.name}"] = (pname, base, has_setter, params)
+        if not factories:
+            return
+        for ci in self.classes.values():
+            for attr, val in list(ci.class_attrs.items()):
+                if not (isinstance(val, ast.Call) and dotted(val.func)):
+                    continue
+                full = self.resolve_dotted(ci.module, dotted(val.func))
+                if full not in factories:
+                    continue
+                pname, base, has_setter, params = factories[full]
+                i = params.index(pname)
+                slot_e = val.args[i] if i < len(val.args) else next((k.value for k in val.keywords if k.arg == pname), None)
+                if not (isinstance(slot_e, ast.Constant) and isinstance(slot_e.value, str)):
+                    continue
+                slot = slot_e.value
+                src = f"def {attr}(self):\n    return {ast.unparse(base)}.{slot}\n"
+                gnode = ast.parse(src).body[0]
+                gnode.decorator_list = [ast.Name(id="property", ctx=ast.Load())]
+                for n_ in ast.walk(gnode):
+                    if hasattr(n_, "lineno"):
+                        n_.lineno = val.lineno
+                        n_.end_lineno = getattr(val, "end_lineno", val.lineno)
+                ci.methods[attr] = FuncInfo(attr, gnode, ci.module, ci, "property")
+                if has_setter:
+                    ssrc = f"def {attr}(self, value):\n    {ast.unparse(base)}.{slot} = value\n"
+                    snode = ast.parse(ssrc).body[0]
+                    for n_ in ast.walk(snode):
+                        if hasattr(n_, "lineno"):
+                            n_.lineno = val.lineno
+                            n_.end_lineno = getattr(val, "end_lineno", val.lineno)
+                    ci.setters[attr] = FuncInfo(attr, snode, ci.module, ci, "setter")
+                ci.class_attrs.pop(attr, None)
 
     # --------------------------------------------------------------- resolution
     def resolve_dotted(self, mod: Module, name: str, _depth: int = 0) -> str:
